@@ -71,6 +71,12 @@ theorem incCode_nat (b : Bool) (v : LV) :
   | el t i => cases i <;> simp [incCode, loadA_nat, opCode_nat, storeA_nat]
   | _ => simp [incCode]
 
+theorem chainCode_nat (ops : List (BOp × RA)) :
+    chainCode (f n) (fun a => f (r a)) ops = (chainCode n r ops).map fun p => (p.1, f p.2) := by
+  induction ops with
+  | nil => simp [chainCode]
+  | cons p rest ih => obtain ⟨op, y⟩ := p; simp [chainCode, opCode_nat, ih]
+
 theorem asgWCode_nat (v : String) (a : WA) :
     asgWCode (fun a => f (r a)) v a = (asgWCode r v a).map fun p => (p.1, f p.2) := by
   simp [asgWCode]
@@ -84,7 +90,7 @@ theorem binWCode_nat (v : String) (op : BOp) (x y : WA) :
 
 theorem rtemplate_nat (zp : String → Bool) (s : RStmt) :
     rtemplate (f n) (fun a => f (r a)) zp s = (rtemplate n r zp s).map fun p => (p.1, f p.2) := by
-  cases s <;> simp [rtemplate, asgCode_nat, binCode_nat, incCode_nat, asgWCode_nat, binWCode_nat]
+  cases s <;> simp [rtemplate, asgCode_nat, binCode_nat, incCode_nat, asgWCode_nat, binWCode_nat, chainCode_nat, loadA_nat, storeA_nat, opCode_nat]
 
 end nat
 
